@@ -314,7 +314,13 @@ def run(prop, tier):
     for label, obj in singles:
         before = DG.dig(obj)
         np.random.seed(C.seed() + rid)
-        digs = [DG.dig(obj.sample()) for _ in range(3)]
+        try:
+            digs = [DG.dig(obj.sample()) for _ in range(3)]
+        except Exception as ex:  # a valid parameter set / program book that cannot be sampled
+            records.append(dict(id=rid, kind="book", ok=False))
+            index[rid] = dict(kind="single uncertain quantity: %s, %s" % (label["source"], label["form"]), error="%s: %s" % (type(ex).__name__, str(ex)[:150]), **label)
+            rid += 1
+            continue
         records.append(dict(id=rid, kind="schedule", digests=digs, before=before, after=DG.dig(obj)))
         index[rid] = dict(kind="single uncertain quantity: %s, %s" % (label["source"], label["form"]), **label)
         rid += 1
